@@ -54,9 +54,11 @@ impl KnownFindings {
 
     /// Only entries with status "known" suppress; "fixed" entries suppress nothing.
     pub fn lookup(&self, property: &str, signature: &str) -> Option<&KnownEntry> {
-        self.entries
-            .iter()
-            .find(|e| e.status == "known" && e.property == property && e.signature == signature)
+        self.entries.iter().find(|e| {
+            e.status == "known"
+                && property.split(',').any(|p| p == e.property)
+                && sig_matches(&e.signature, signature)
+        })
     }
 
     pub fn classifier<'a>(
@@ -68,7 +70,8 @@ impl KnownFindings {
             if v.property == "MACHINERY" {
                 return Disposition::Report;
             }
-            match (v.property == property, known) {
+            let mine = v.property.split(',').any(|p| p == property);
+            match (mine, known) {
                 (true, true) => Disposition::Known,
                 (true, false) => Disposition::Report,
                 (false, true) => Disposition::KnownForeign,
@@ -256,6 +259,13 @@ impl Run {
         );
         exit
     }
+}
+
+/// Known-finding signatures may use `*` for a whole `|`-separated field.
+pub fn sig_matches(pattern: &str, sig: &str) -> bool {
+    let a: Vec<&str> = pattern.split('|').collect();
+    let b: Vec<&str> = sig.split('|').collect();
+    a.len() == b.len() && a.iter().zip(b.iter()).all(|(p, s)| *p == "*" || p == s)
 }
 
 fn write_atomic(path: &Path, content: &str) {
